@@ -135,6 +135,53 @@ pub fn run(ctx: &Ctx) -> i32 {
         check_format(s, &mut d);
     }
     acc = acc.merge(d);
+    // every character of the Basic Multilingual Plane after '%', after '%A' and after '\\'
+    acc = acc.merge(par_cases(0x10000, |cp, acc| {
+        if let Some(c) = char::from_u32(cp as u32) {
+            if c == '\'' || c == '\0' || (c as u32) < 0x80 {
+                return;
+            }
+            check_format(&format!("%{c}"), acc);
+            check_format(&format!("a%{c}b"), acc);
+            check_format(&format!("\\{c}"), acc);
+            check_format(&format!("%p{c}%s"), acc);
+        }
+    }));
+    // long formats: each documented element repeated, mixtures, with a literal / directive / escape
+    // at the end; each is parsed three times in a row and used twice in one command line
+    let mut longs: Vec<String> = vec![];
+    let units = ["%p", "%s", "\\n", "\\101", "\\\\", "ab", "%%", "%A@", "%{fid}", "\\0", "\\q", "x"];
+    for &n in &[8usize, 16, 24, 25, 47, 48, 49, 63, 64, 65, 127, 128, 129, 255, 256, 257, 500] {
+        for u in units {
+            for tail in ["", ".", "%p", "\\n", " end"] {
+                let s = format!("{}{tail}", u.repeat(n));
+                if s.len() <= 3000 {
+                    longs.push(s);
+                }
+            }
+        }
+        let mix: String = (0..n).map(|k| units[k % units.len()]).collect();
+        longs.push(mix.clone());
+        longs.push(format!("{mix}}}, "));
+    }
+    acc = acc.merge(speclib::report::par_items(&longs, |s, acc| {
+        for _ in 0..3 {
+            check_format(s, acc);
+        }
+        // the same format twice in one expression: both actions must carry the same element list
+        let input = format!("-fprintf a '{s}' -fprintf b '{s}'");
+        if let PS::Ok(_, Expr::And(x, y)) = parse_spec(&input) {
+            if let (Expr::Action(Action::FPrintf(_, f1)), Expr::Action(Action::FPrintf(_, f2))) = (&*x, &*y) {
+                if f1 != f2 {
+                    acc.violate(Violation::new(
+                        "C14:same-format-segmented-differently",
+                        format!("the format {s:?} used by two actions of one expression is segmented as {f1:?} and as {f2:?}"),
+                        json!({"kind": "format", "format": s}),
+                    ));
+                }
+            }
+        }
+    }));
     finish(
         ctx,
         acc,
@@ -142,7 +189,7 @@ pub fn run(ctx: &Ctx) -> i32 {
             level: "model_checking",
             exhaustive: true,
             rule: "state = format string (BFS by appending one of 16 symbols), wrapped as -printf '<s>'; the element list in the returned tree is compared with an independent hand-written scanner after merging self-standing backslashes into text; raw list checked for empty/adjacent literals; distinct = distinct element lists".into(),
-            bound: format!("every string of length 1..{n} over {:?}; plus every documented directive and escape alone, doubled, between literals and next to %p, \\n, \\\\, \\101 ({} strings)", ALPHA, docs.len()),
+            bound: format!("every string of length 1..{n} over {:?}; plus every documented directive and escape alone, doubled, between literals and next to %p, \\n, \\\\, \\101 ({} strings); every non-ASCII character of the Basic Multilingual Plane after '%', after a backslash and between directives; {} long formats (each element repeated 8..500 times, mixtures, five kinds of tail), each parsed three times in a row and used by two actions of one expression", ALPHA, docs.len(), longs.len()),
             assumptions: vec![
                 "directive and escape tables from the doc comments of the subject's ast.rs / find(1); octal escapes take exactly three digits".into(),
                 "skipped as unspecified: 1-2 digit octal escapes, %A/%C/%T with undocumented selector, %{xattr:} with non-alphabetic name, % followed by flags or width".into(),
